@@ -131,6 +131,12 @@ def run_check(prop: str, tier: str, seed: int) -> int:
             driver = core.Driver()
         except core.DriverError as e:
             print(f'[{prop}] driver unavailable: {e}')
+    elif build.driver_baseline is not None:
+        print(f'[{prop}] driver does not build against the regenerated definitions; failing-input search uses the last good driver (baseline model)')
+        try:
+            driver = core.Driver(build.driver_baseline)
+        except core.DriverError as e:
+            print(f'[{prop}] baseline driver unavailable: {e}')
     else:
         print(f'[{prop}] driver did not build; correspondence skipped, oracle runs on the implementation only')
     ctx = Ctx(prop, tier, seed, driver, build)
